@@ -144,6 +144,67 @@ func c19WS(fam string, big bool) (viol []vsched.Violation, obs []string, inputs 
 		}
 	}
 
+	// 2b. a Write queued behind a Write that is stuck (the peer does not read) returns once ITS context is done
+	{
+		stuck := make(chan *websocket.Conn, 1)
+		ts2 := httptest.NewServer(http.HandlerFunc(func(w http.ResponseWriter, r *http.Request) {
+			c, err := websocket.Accept(w, r, nil)
+			if err != nil {
+				return
+			}
+			stuck <- c
+			<-r.Context().Done() // never reads
+		}))
+		cli2, _, err := websocket.Dial(ctx, "ws"+strings.TrimPrefix(ts2.URL, "http"), nil)
+		if err != nil {
+			fail("harness", "dial 2: %v", err)
+			ts2.Close()
+			return
+		}
+		srv2 := <-stuck
+		w2 := goat.NewGoatOverWebsocket(cli2)
+		bigc, cancelBig := context.WithCancel(context.Background())
+		progress := make(chan struct{}, 64)
+		go func() {
+			big := &goatorepo.Rpc{Id: 1, Body: &goatorepo.Body{Data: make([]byte, 1<<20)}}
+			for {
+				if err := w2.Write(bigc, big); err != nil {
+					return
+				}
+				select {
+				case progress <- struct{}{}:
+				default:
+				}
+			}
+		}()
+		// wait until the first writer stops making progress
+		for quiet := 0; quiet < 3; {
+			select {
+			case <-progress:
+				quiet = 0
+			case <-time.After(300 * time.Millisecond):
+				quiet++
+			}
+		}
+		wctx, wcancel := context.WithTimeout(context.Background(), 200*time.Millisecond)
+		wdone := make(chan error, 1)
+		go func() { wdone <- w2.Write(wctx, &goatorepo.Rpc{Id: 2}) }()
+		select {
+		case err := <-wdone:
+			if err == nil {
+				fail("write-ignores-ctx", "a Write queued behind a stuck Write succeeded although the peer never reads")
+			}
+		case <-time.After(30 * time.Second):
+			fail("write-ignores-ctx", "a Write waiting behind a stuck Write on the WebSocket transport did not return within 30s of its context being done")
+		}
+		wcancel()
+		cancelBig()
+		cli2.CloseNow()
+		srv2.CloseNow()
+		ts2.Close()
+		inputs++
+	}
+
 	// 3. a blocked Read returns once its context is done
 	rctx, rcancel := context.WithCancel(context.Background())
 	done := make(chan error, 1)
